@@ -947,3 +947,57 @@ Theorem c08_restart_after_wait_trace : forall c s l s1 os r tr s2 oss, reach c s
   tasks (started s2) = tasks s1 /\ units (started s2) = units s1.
 Proof. exact restart_after_wait_trace. Qed.
 Print Assumptions c08_restart_after_wait_trace.
+
+
+(** * Monitor over the two sequences of a run (srv/SrvMonitors3.v, proof: srv/SrvMonWait.v), extracted and evaluated
+    by the model runner on every harness log, racing ones included.  Counting / membership only, no interleaving.
+    [env_of tr] = the environment labels of the trace in order, [concat oss] = the observations of the run in order;
+    [wait_causes os] = the causes c of the WaitStatus returns [OWaitRet (Some c)] of os; [class_of c] = Stopped for
+    SCStop, Closed for SCEOF and SCClosing (the log does not tell them apart), Failed for SCOther;
+    [cause_in env c] = env contains a fed Recv error [LFeed (FErr c')] of the class of c, or, for Stopped, a Stop call
+    [LCallStop _];
+    [mon_wait_status env os] = cause_in env c for every c of wait_causes os, and the [OWaitRet _] observations of os
+    are at most as many as the [LCallWait] labels of env. *)
+From JV Require SrvMonitors SrvMonitors3 SrvMonWait.
+Module Monitors.
+Import SrvMonitors SrvMonitors3.
+Theorem c08_mon_wait_status_sound : forall c tr s oss, run (init_of c) tr = Some (s, oss) ->
+  mon_wait_status (env_of tr) (concat oss) = true.
+Proof. exact SrvMonWait.mon_wait_status_sound. Qed.
+Print Assumptions c08_mon_wait_status_sound.
+
+(* the clauses, spelled out: Stopped needs a Stop call (or the stop sentinel fed as a Recv error, see below) ... *)
+Theorem c08_wait_stopped_needs_stop : forall c tr s oss, run (init_of c) tr = Some (s, oss) ->
+  In (OWaitRet (Some SCStop)) (concat oss) ->
+  (exists n, In (LCallStop n) (env_of tr)) \/ In (LFeed (FErr SCStop)) (env_of tr).
+Proof. exact SrvMonWait.wait_stopped_needs_stop. Qed.
+Print Assumptions c08_wait_stopped_needs_stop.
+
+(* ... Closed needs a fed EOF or closing error: the closing error the model appends to the channel when the server
+   stops is never the recorded cause ... *)
+Theorem c08_wait_closed_needs_eof : forall c tr s oss k, run (init_of c) tr = Some (s, oss) ->
+  k = SCEOF \/ k = SCClosing -> In (OWaitRet (Some k)) (concat oss) ->
+  In (LFeed (FErr SCEOF)) (env_of tr) \/ In (LFeed (FErr SCClosing)) (env_of tr).
+Proof. exact SrvMonWait.wait_closed_needs_eof. Qed.
+Print Assumptions c08_wait_closed_needs_eof.
+
+(* ... a failure needs a fed Recv error of the other kind ... *)
+Theorem c08_wait_failed_needs_error : forall c tr s oss, run (init_of c) tr = Some (s, oss) ->
+  In (OWaitRet (Some SCOther)) (concat oss) -> In (LFeed (FErr SCOther)) (env_of tr).
+Proof. exact SrvMonWait.wait_failed_needs_error. Qed.
+Print Assumptions c08_wait_failed_needs_error.
+
+(* ... and WaitStatus returns at most as often as it was called *)
+Theorem c08_waitret_le_callwait : forall c tr s oss, run (init_of c) tr = Some (s, oss) ->
+  countb is_waitret (concat oss) <= countb is_callwait (env_of tr).
+Proof. exact SrvMonWait.waitret_le_callwait. Qed.
+Print Assumptions c08_waitret_le_callwait.
+
+(* REFUTED: "Stopped is reported only after a Stop call" (the flat form of
+   c08_status_stopped_only_by_stop_refuted_without_nofeed): a fed FErr SCStop is reported as Stopped *)
+Theorem c08_wait_stopped_needs_callstop_refuted :
+  exists tr s oss, run (init_of ex_cfg) tr = Some (s, oss) /\ In (OWaitRet (Some SCStop)) (concat oss) /\
+    existsb is_callstop (env_of tr) = false.
+Proof. exact SrvMonWait.wait_stopped_needs_callstop_refuted. Qed.
+Print Assumptions c08_wait_stopped_needs_callstop_refuted.
+End Monitors.
